@@ -1,4 +1,5 @@
 import Dhlldv.Lemmas.Interp
+import Dhlldv.Lemmas.InterpMono
 import Dhlldv.Gen.Tables
 import Mathlib.Tactic.NormNum
 
@@ -155,6 +156,31 @@ theorem C18_viscosity_decreasing :
       List.pairwise_cons, List.mem_cons, List.not_mem_nil, or_false, forall_eq_or_imp, forall_eq,
       List.Pairwise.nil, and_true, IsEmpty.forall_iff, implies_true]
     norm_num
+
+/-- a table with strictly increasing keys and strictly decreasing values is strictly decreasing on its WHOLE key range (nodes and in between) -/
+theorem C18_lookup_strictAnti (t : InterpTable ℝ) (p q : ℝ × ℝ) (rest : List (ℝ × ℝ)) (ht : t.pts = p :: q :: rest) (hd : Dec p (q :: rest))
+    (x y : ℝ) (h1 : p.1 ≤ x) (h2 : x < y) (h3 : y ≤ (lastPt p (q :: rest)).1) :
+    ∃ vx vy, t.lookup x = some vx ∧ t.lookup y = some vy ∧ vy < vx := by
+  obtain ⟨vx, vy, a, b, c⟩ := F_strictAnti (q :: rest) p x y hd h1 h2 h3
+  refine ⟨vx, vy, ?_, ?_, c⟩
+  · rw [lookup_eq_F t p q rest ht hd x h1 (by linarith)]; exact a
+  · rw [lookup_eq_F t p q rest ht hd y (by linarith) h3]; exact b
+
+/-- water viscosity (dynamic and kinematic, shipped tables) decreases strictly with temperature everywhere on 0–100 °C -/
+theorem C18_viscosity_decreasing_everywhere (x y : ℝ) (h1 : 0 ≤ x) (h2 : x < y) (h3 : y ≤ 100) :
+    (∃ vx vy, (Tbl.water_dynamic_viscosity (α := ℝ)).lookup x = some vx ∧ (Tbl.water_dynamic_viscosity (α := ℝ)).lookup y = some vy ∧ vy < vx) ∧
+    (∃ vx vy, (Tbl.water_viscosity (α := ℝ)).lookup x = some vx ∧ (Tbl.water_viscosity (α := ℝ)).lookup y = some vy ∧ vy < vx) := by
+  constructor
+  · apply C18_lookup_strictAnti _ _ _ _ rfl _ x y
+    · show (0.0 : ℝ) ≤ x; norm_num; exact h1
+    · exact h2
+    · simp only [lastPt]; norm_num; exact h3
+    · simp only [Dec]; norm_num
+  · apply C18_lookup_strictAnti _ _ _ _ rfl _ x y
+    · show (0.0 : ℝ) ≤ x; norm_num; exact h1
+    · exact h2
+    · simp only [lastPt]; norm_num; exact h3
+    · simp only [Dec]; norm_num
 
 /-! Non-vacuity: a concrete table meets the hypotheses and exercises hit / between / above / below. -/
 example : Sorted [((1:ℝ), (2:ℝ)), (3, 5), (7, 4)] := by
